@@ -57,8 +57,9 @@ impl ExportEvent for Capture {
             Ok(s) => {
                 let orig = serde_json::from_str::<Value>(&s).unwrap_or(Value::Null);
                 let back: Result<qevent::Event, _> = serde_json::from_str(&s);
+                // compare the two DOCUMENTS (text -> Value on both sides: an f32 field re-serialises to the same short text)
                 let rt = match &back {
-                    Ok(b) => serde_json::to_value(b).map(|v| v == orig).unwrap_or(false),
+                    Ok(b) => serde_json::to_string(b).ok().and_then(|s2| serde_json::from_str::<Value>(&s2).ok()).map(|v| v == orig).unwrap_or(false),
                     Err(_) => false,
                 };
                 (orig, rt)
@@ -608,6 +609,7 @@ fn slim(e: &Value) -> Value {
             o["new"] = json!(st(d.get("new")));
             o["old"] = json!(st(d.get("old")));
             o["sside"] = json!(st(d.get("stream_side")));
+            o["stype"] = json!(st(d.get("stream_type")));
         }
         "stream_data_moved" => {
             o["sid"] = json!(cap(d.get("stream_id")));
